@@ -34,6 +34,8 @@ type CliCase struct {
 	DevArch   int        `json:"dev_arch,omitempty"`
 	UlpDev    bool       `json:"ulp_dev,omitempty"` // the deviation is one ulp away from the stored value
 	EnvFault  string     `json:"env_fault,omitempty"` // F6: "dest-exists" (generate), ...
+	Race      *Cmd       `json:"race,omitempty"`      // "dest-race": a second generate for the same destination
+	Park      *TickFault `json:"park,omitempty"`      // "dest-race": where the first generate is parked
 }
 
 type cliSim struct{}
@@ -490,6 +492,14 @@ func genGenerate(r *rand.Rand, c *CliCase, l Layout) {
 	if chance(r, 0.15) {
 		c.EnvFault = "dest-exists"
 		c.Files = []WFile{{Base: "dst", Rel: "g/new.wsp", Layout: l, Fills: genFills(r, l, 0, 0.5)}}
+	} else if chance(r, 0.15) {
+		c.EnvFault = "dest-race"
+		l2 := genLayout(r, pick(r, "tiny", "small"))
+		c.Race = &Cmd{Kind: "generate", Dest: c.Cmd.Dest, Create: l2, Fill: chance(r, 0.8), RandMax: 7}
+		c.Park = &TickFault{G: pick(r, "A0", "A0", "A1"), Y: uint64(between(r, 1, 40))}
+		if chance(r, 0.2) {
+			c.Park.Y = uint64(between(r, 1, 3000))
+		}
 	}
 }
 
@@ -506,6 +516,9 @@ func validCliCase(c *CliCase) bool {
 				return false
 			}
 		}
+	}
+	if c.Race != nil && (!c.Race.Create.Valid() || c.Race.Kind != "generate") {
+		return false
 	}
 	if c.Cmd.Kind == "copy" || c.Cmd.Kind == "sum-copy" || c.Cmd.Kind == "generate" {
 		if !c.Cmd.Create.Valid() {
@@ -555,6 +568,18 @@ func (cliSim) Run(e *Env, ci interface{}) {
 				fired = true
 				r.s.Tick(time.Duration(tk.D) * time.Second)
 				e.Fault("F3.clock-tick-inside-command")
+				return FaultPark
+			}
+			return FaultNone
+		}
+	}
+	if c.EnvFault == "dest-race" && c.Park != nil && c.Tick == nil {
+		parked := false
+		pk := *c.Park
+		r.s.Fault = func(g *G, site int) FaultAction {
+			if !parked && g.Name == pk.G && g.Yields() == pk.Y {
+				parked = true
+				e.Fault("F2.forced-preemption")
 				return FaultPark
 			}
 			return FaultNone
